@@ -595,6 +595,7 @@ type c20Rec struct {
 	wire  []byte
 	wkey  string // identity from the wire
 	x     dns.RR // UnpackRR(wire)
+	y     dns.RR // the record as unpacked from a compressed message (Rdlength = compressed RDATA length); nil: no such form
 }
 
 func (v *c20Rec) free() bool { return v.key == "" }
@@ -731,7 +732,34 @@ func c20WireKey(v *c20Rec) error {
 		return fmt.Errorf("UnpackRR(%x): off %d, %v", w, xoff, err)
 	}
 	v.x = x
+	v.y = c20ViaCompressedMsg(v)
 	return nil
+}
+
+// c20ViaCompressedMsg: the same record as it comes out of a compressed message in which its owner and
+// its embedded names have been seen before (question = owner, one A record owned by each embedded name),
+// so that the RDATA of the types that may be compressed is shorter than in v.wire and the header's
+// Rdlength differs from that of v.x although the record is the same.
+func c20ViaCompressedMsg(v *c20Rec) dns.RR {
+	if v.rr.Header().Rrtype == dns.TypeOPT || v.rr.Header().Rrtype == dns.TypeTSIG {
+		return nil
+	}
+	m := new(dns.Msg)
+	m.Compress = true
+	m.Question = []dns.Question{{Name: v.rr.Header().Name, Qtype: dns.TypeANY, Qclass: dns.ClassINET}}
+	for _, n := range v.names {
+		m.Answer = append(m.Answer, &dns.A{Hdr: dns.RR_Header{Name: n, Rrtype: dns.TypeA, Class: dns.ClassINET, Ttl: 1}, A: []byte{192, 0, 2, 1}})
+	}
+	m.Answer = append(m.Answer, v.rr)
+	b, err := m.Pack()
+	if err != nil {
+		return nil
+	}
+	m2 := new(dns.Msg)
+	if err := m2.Unpack(b); err != nil || len(m2.Answer) != len(m.Answer) {
+		return nil
+	}
+	return m2.Answer[len(m2.Answer)-1]
 }
 
 func c20Show(rr dns.RR) string {
@@ -764,13 +792,27 @@ func c20CheckType(r *fw.R, t *c20Type, all []*c20Type) {
 	for _, v := range vs {
 		recs = append(recs, v.x)
 	}
+	for _, v := range vs {
+		if v.y == nil {
+			v.y = dns.Copy(v.x)
+		} else {
+			r.Count("records also taken from a compressed message", 1)
+			if v.y.Header().Rdlength != v.x.Header().Rdlength {
+				r.Count("… with an Rdlength other than that of the uncompressed form", 1)
+			}
+		}
+		recs = append(recs, v.y)
+	}
 	desc := func(i int) string {
 		if i < n {
 			return fmt.Sprintf("[built: %s] %s", vs[i].what(), c20Show(recs[i]))
 		}
+		if i >= 2*n {
+			return fmt.Sprintf("[from a compressed message, of: %s] %s", vs[i-2*n].what(), c20Show(recs[i]))
+		}
 		return fmt.Sprintf("[from wire %x of: %s] %s", vs[i-n].wire, vs[i-n].what(), c20Show(recs[i]))
 	}
-	N := 2 * n
+	N := 3 * n
 	D := make([][]bool, N)
 	for i := range D {
 		D[i] = make([]bool, N)
@@ -846,8 +888,10 @@ func c20CheckType(r *fw.R, t *c20Type, all []*c20Type) {
 	for i := 0; i < n; i++ {
 		for j := 0; j < n; j++ {
 			exp := vs[i].wkey == vs[j].wkey
-			if D[n+i][n+j] != exp {
-				r.Fail("wire/"+T, "IsDuplicate = %v for two records from the wire whose (type, class, lower-cased owner, RDATA with names lower-cased) are equal = %v; a = %s; b = %s", D[n+i][n+j], exp, desc(n+i), desc(n+j))
+			for _, p := range [][2]int{{n + i, n + j}, {n + i, 2*n + j}, {2*n + i, n + j}, {2*n + i, 2*n + j}} {
+				if D[p[0]][p[1]] != exp {
+					r.Fail("wire/"+T, "IsDuplicate = %v for two records from the wire whose (type, class, lower-cased owner, RDATA with names lower-cased) are equal = %v; a = %s; b = %s", D[p[0]][p[1]], exp, desc(p[0]), desc(p[1]))
+				}
 			}
 		}
 	}
@@ -989,7 +1033,7 @@ func c20Spaces(c *fw.Ctx) {
 		all = append(all, t)
 	}
 
-	c.Space("types", fmt.Sprintf("every type of dns.TypeToRR in code order (skipped as outside the relation's domain: %v; no type is skipped for lack of a packable instance) plus one unassigned type (RFC3597 form): a base record built by reflection with every field non-zero (PackRR and UnpackRR must succeed), its Copy, 2 TTL variants, 4 owner-case variants, 7 other owners (one letter, label count, '[' vs '{'), 2 other classes, per name field 3 case variants + 3 other names, per other field 2–19 other values (text fields also in other letter case; sized data with its length field), gateway variants none/IPv4/IPv6/host for IPSECKEY and AMTRELAY, every other type with the same field layout and the next type with the same owner, non-canonical spellings (\\DDD, hex/base32 case, 16-octet IPv4, SVCB order); each record also after PackRR→UnpackRR; all ordered pairs and all triples of the 2n records; non-trivial: the type has at least one RDATA field", skipped), true,
+	c.Space("types", fmt.Sprintf("every type of dns.TypeToRR in code order (skipped as outside the relation's domain: %v; no type is skipped for lack of a packable instance) plus one unassigned type (RFC3597 form): a base record built by reflection with every field non-zero (PackRR and UnpackRR must succeed), its Copy, 2 TTL variants, 4 owner-case variants, 7 other owners (one letter, label count, '[' vs '{'), 2 other classes, per name field 3 case variants + 3 other names, per other field 2–19 other values (text fields also in other letter case; sized data with its length field), gateway variants none/IPv4/IPv6/host for IPSECKEY and AMTRELAY, every other type with the same field layout and the next type with the same owner, non-canonical spellings (\\DDD, hex/base32 case, 16-octet IPv4, SVCB order); each record also after PackRR→UnpackRR and as unpacked from a compressed message that has seen its owner and embedded names before (other Rdlength, same record); all ordered pairs and all triples of the 3n records; non-trivial: the type has at least one RDATA field", skipped), true,
 		func(emit func(func(*fw.R))) {
 			emit(func(r *fw.R) {
 				for _, e := range modelErr {
